@@ -75,7 +75,7 @@ UamivStep(c, t) ==
 \* no file header; every record starts with the time (HHMM as a float) and the
 \* date (YYJJJ) of the step's beginning, followed by one horizontal slab
 OneVarFmts == {"one3d", "humidity", "vertical_diffusivity"}
-MetFmts == OneVarFmts \cup {"temperature", "height_pressure"}
+MetFmts == OneVarFmts \cup {"temperature", "height_pressure", "wind"}
 MetRec(c, t, s, k) == << F(HourOf(BeginOf(c, t)) * 100), I(YYJJJ(BeginOf(c, t))) >> \o Grid(c, s, t, k)
 MetStep(c, t) ==
   CASE c.fmt \in OneVarFmts -> [k \in 1..c.nz |-> MetRec(c, t, 1, k)]
@@ -83,6 +83,13 @@ MetStep(c, t) ==
     [] c.fmt = "temperature" -> << MetRec(c, t, 1, 0) >> \o [k \in 1..c.nz |-> MetRec(c, t, 2, k)]
     \* per layer: height, then pressure
     [] c.fmt = "height_pressure" -> FlattenSeq([k \in 1..c.nz |-> << MetRec(c, t, 1, k), MetRec(c, t, 2, k) >>])
+    \* wind: one time record (hour, date and, in the newer layout, the stagger
+    \* flag), per layer the u slab then the v slab (no time stamp in the slabs),
+    \* and a one-word dummy record that closes the step
+    [] c.fmt = "wind" ->
+         << << F(HourOf(BeginOf(c, t)) * 100), I(YYJJJ(BeginOf(c, t))) >> \o (IF c.hdr3 THEN << I(c.lstag) >> ELSE <<>>) >>
+         \o FlattenSeq([k \in 1..c.nz |-> << Grid(c, 1, t, k), Grid(c, 2, t, k) >>])
+         \o << << I(0) >> >>
 
 \* the variables a reader of the format presents: name, token species, surface?
 FmtVars(c) ==
@@ -91,6 +98,7 @@ FmtVars(c) ==
     [] c.fmt = "vertical_diffusivity" -> << [name |-> "KV", s |-> 1, surf |-> FALSE] >>
     [] c.fmt = "temperature" -> << [name |-> "SURFTEMP", s |-> 1, surf |-> TRUE], [name |-> "AIRTEMP", s |-> 2, surf |-> FALSE] >>
     [] c.fmt = "height_pressure" -> << [name |-> "HGHT", s |-> 1, surf |-> FALSE], [name |-> "PRES", s |-> 2, surf |-> FALSE] >>
+    [] c.fmt = "wind" -> << [name |-> "U", s |-> 1, surf |-> FALSE], [name |-> "V", s |-> 2, surf |-> FALSE] >>
 
 \* compact form for large grids: the data slab is one field [t |-> "g", s, tt, k]
 \* that the serialiser expands with the token rule (ny * nx floats)
@@ -123,11 +131,29 @@ RecsPerStep(c) == CASE c.fmt = "uamiv" -> 1 + Len(c.spc) * c.nz
                     [] c.fmt \in OneVarFmts -> c.nz
                     [] c.fmt = "temperature" -> c.nz + 1
                     [] c.fmt = "height_pressure" -> 2 * c.nz
+                    [] c.fmt = "wind" -> 2 * c.nz + 2
 \* number of complete time steps contained in the first n bytes
 CompleteSteps(c, n) ==
   LET hb == Offset(c, NHeader(c))
       bb == Offset(c, NHeader(c) + RecsPerStep(c)) - hb
   IN IF n < hb THEN 0 ELSE (n - hb) \div bb
+
+\* ---- the memory-mapped wind reader's decision procedure on the first n bytes
+\* the layer count is found by walking the records of the first step until the
+\* size changes (the dummy record); the walk needs the dummy's leading marker
+WindDummyOffset(cc) == Offset(cc, 1 + 2 * cc.nz)
+WindStepBytes(cc) == Offset(cc, 2 * cc.nz + 2)
+\* the legacy rule: a running total that starts at the dummy length IN WORDS and
+\* grows by the step size WITHOUT the dummy record, compared with the length in bytes
+RECURSIVE WindLegacyLoop(_, _, _, _)
+WindLegacyLoop(total, times, inc, len) ==
+  IF total < len THEN WindLegacyLoop(total + inc, times + 1, inc, len) ELSE times - 1
+WindOpenF(cc, nn, legacy) ==
+  IF nn < WindDummyOffset(cc) + 4 THEN [k |-> "Err", n |-> 0]        \* first step cannot be walked
+  ELSE IF nn % 4 # 0 THEN [k |-> "Err", n |-> 0]                      \* not a whole number of words
+  ELSE LET times == IF legacy THEN WindLegacyLoop(3, 0, WindStepBytes(cc) - 12, nn)
+                    ELSE nn \div WindStepBytes(cc)
+       IN IF times <= 0 THEN [k |-> "Err", n |-> 0] ELSE [k |-> "Steps", n |-> times]
 
 \* ------------------------------------- matching decoded words against a record
 \* a decoded word w = [i : as int32, f : as float32 when a small integer else
